@@ -143,7 +143,7 @@ def install(ctx):
 
 
 def gen_case(rng, tier, ctx, i):
-    o = common.varied_opts(rng, tier)
+    o = common.varied_opts(rng, tier, p_huge=0.08)
     rec = common.model_case(rng, tier, o)
     if rec is None:
         return None
